@@ -556,6 +556,10 @@ func (e *Env) Exec(line string) []Step {
 				return err
 			})
 		})
+	case "newval":
+		// a validator created after assets exist: its operator address sorts after all existing ones (ids stay in key order);
+		// it self-delegates natively and joins the set at the next staking end blocker
+		return env(func() { e.addValidator() })
 	case "jail":
 		v := atoi(f[1])
 		return env(func() {
